@@ -79,8 +79,14 @@ class SelectorDetLoop(asyncio.SelectorEventLoop):
         return self.now
 
 
+def _quiet(loop, context):
+    """Loop exception handler: "Task exception was never retrieved" and the like are expected in fault-injection
+    schedules; formatting them through logging is pure overhead (and, under CrossHair, most of a path's cost)."""
+
+
 def run_det(coro):
     loop = SelectorDetLoop() if os.environ.get('VT_SCHED_LOOP') == 'selector' else DetLoop()
+    loop.set_exception_handler(_quiet)
     try:
         return loop.run_until_complete(coro)
     finally:
@@ -90,6 +96,7 @@ def run_det(coro):
 def run_plain(coro):
     """Concrete replay: the stock event loop of this Python, exactly what `asyncio.run` would use."""
     loop = asyncio.new_event_loop()
+    loop.set_exception_handler(_quiet)
     try:
         return loop.run_until_complete(coro)
     finally:
@@ -99,10 +106,15 @@ def run_plain(coro):
 def concretize(x, lo, hi):
     """Turn a symbolic int known to lie in lo..hi into a concrete one by branching (one path per value), so
     that it can index lists and select actions without CrossHair realising it behind our back."""
-    for v in range(lo, hi + 1):
-        if x == v:
-            return v
-    raise Prune()
+    if not (lo <= x <= hi):
+        raise Prune()
+    while lo < hi:
+        mid = (lo + hi) // 2
+        if x <= mid:
+            hi = mid
+        else:
+            lo = mid + 1
+    return lo
 
 
 async def step():
@@ -127,14 +139,26 @@ async def settle():
 async def cleanup(tasks):
     """Cancel whatever is still pending and let the cancellations run, so that no task outlives its loop
     (called from a scenario's `finally`; never part of the oracle)."""
+    live = False
     for t in tasks:
         if t is not None and not t.done():
             t.cancel()
-    for _ in range(6):
-        await asyncio.sleep(0)
+            live = True
+    if live:
+        for _ in range(6):
+            await asyncio.sleep(0)
     for t in tasks:
         if t is not None and t.done() and not t.cancelled():
             t.exception()
+
+
+def freeze():
+    """Call at the end of a harness module: everything imported so far (z3, crosshair, the repository modules) is
+    moved to the GC's permanent generation.  CrossHair runs gc.collect() around every path; with a large heap
+    that was a third of the run time.  No effect on program semantics."""
+    import gc
+    gc.collect()
+    gc.freeze()
 
 
 def load_file(modname, relpath):
